@@ -4,6 +4,7 @@ pub mod c04b;
 pub mod c05;
 #[macro_use]
 pub mod c14;
+pub mod c14_readbuf;
 pub mod c06b;
 pub mod c07;
 pub mod c08;
